@@ -127,9 +127,69 @@ def scope(tier, seed):
             if tier == 'quick' else 'blocks seed..seed+7 of %d per logic' % NB3}
 
 
+def edited_print(logic, acc):
+    """History: print / hash a formula, re-initialise a node below the root in place (the documented
+    mutator wrap_subformulas through the node's constructor), print again: the new text must parse to
+    the new tree."""
+    L = lib.LANGS[logic]
+    pool = [t for t in formulas(logic, 2) if t[0] not in ('ap', 't', 'f')
+            and any(x[0] not in ('ap', 't', 'f') for x in t[1:])][:400]
+    repl = ('ap', 'zz')
+    for t in pool:
+        r0 = call(lib.build, t, L)
+        if r0[0] != 'ok':
+            continue
+        o = r0[1]
+        str(o)
+        hash(o)
+        ci = [i for i, x in enumerate(t[1:]) if x[0] not in ('ap', 't', 'f')][0]
+        sub = t[1 + ci]
+        node = o._subformula[ci]
+        args = [lib.build(repl, L)] + list(node._subformula[1:])
+        r = call(lambda: node.__init__(*args))
+        if r[0] != 'ok':
+            continue
+        t2 = t[:1 + ci] + ((sub[0], repl) + tuple(sub[2:]),) + t[2 + ci:]
+        rr = call(lib.read, o)
+        if rr[0] != 'ok' or rr[1] != t2:
+            continue
+        acc.ev(1, 1)
+        text = str(o.cast_to(lib.CTLS)) if logic == 'CTL' else str(o)
+        rp = call(parser(logic), text)
+        case = {'logic': logic, 'tree': spaces.to_jsonable(t2), 'tree_str': spaces.fstr(t2), 'printed': text,
+                'history': 'printed and hashed as %s, then one operand replaced in place' % spaces.fstr(t)}
+        if rp[0] != 'ok' or lib.read(rp[1]) != t2:
+            acc.violation('print-stale-after-edit', case, spaces.fstr(t2),
+                          rp[1:] if rp[0] != 'ok' else spaces.fstr(lib.read(rp[1])))
+
+
+def foreign_language_parsers(acc):
+    """Parsers created with an explicit language= argument for ANOTHER language first; default parsers
+    created afterwards must still produce formulas of their own logic."""
+    combos = [('LTL', 'CTLS'), ('PL', 'LTL'), ('CTL', 'CTLS'), ('PL', 'CTLS'), ('CTLS', 'CTLS')]
+    for own, other in combos:
+        r = call(lambda: lib.LANGS[own].Parser(language=lib.LANGS[other]))
+        if r[0] != 'ok':
+            continue
+        call(r[1], 'p')
+        Pd = lib.LANGS[own].Parser()
+        for t in formulas(own, 1)[:60]:
+            text = str(lib.build(t, lib.LANGS[own]).cast_to(lib.CTLS)) if own == 'CTL' else str(lib.build(t, lib.LANGS[own]))
+            rp = call(Pd, text)
+            acc.ev(1, 1)
+            case = {'logic': own, 'tree': spaces.to_jsonable(t), 'tree_str': spaces.fstr(t), 'printed': text,
+                    'history': 'a %s.Parser(language=%s) was created before the default parser' % (own, other)}
+            if rp[0] != 'ok' or lib.read(rp[1]) != t:
+                acc.violation('roundtrip-differs', case, spaces.fstr(t), rp[1:] if rp[0] != 'ok' else str(rp[1]))
+            elif not lib.all_same_lang(rp[1], own):
+                acc.violation('parsed-in-another-logic', case, own, lib.lang_of(rp[1]))
+
+
 def plan(tier, seed):
     sh = []
+    sh.append(['foreign'])
     for logic in LOGICS:
+        sh.append(['edited', logic])
         sh.append(['small', logic])
         for i in range(4):
             sh.append(['size2', logic, i, 4])
@@ -179,6 +239,12 @@ def roundtrip(logic, t, acc, printed):
 
 
 def run_shard(shard, tier, seed, acc):
+    if shard[0] == 'foreign':
+        foreign_language_parsers(acc)
+        return
+    if shard[0] == 'edited':
+        edited_print(shard[1], acc)
+        return
     kind, logic = shard[0], shard[1]
     printed = {}
     if kind == 'small':
@@ -241,6 +307,12 @@ def replay(art):
     acc = Acc()
     printed = {}
     t = spaces.from_jsonable(c['tree'])
+    if 'history' in c:
+        if 'Parser(language' in c['history']:
+            foreign_language_parsers(acc)
+        else:
+            edited_print(c['logic'], acc)
+        return {'violates': acc.d['nviol'] > 0, 'detail': acc.d['violations'][:1]}
     if art['kind'] == 'printing-not-injective':
         L = lib.LANGS[c['logic']]
         # find the other tree by re-enumerating is costly: re-print both sides instead
